@@ -99,7 +99,7 @@ class Enumerator:
         d = Driver(self.inst, self.template, self.inputs, self.fhs)
         for c in STARTS[start]:
             d.call(c)
-        self.hang_timeout = 6.0
+        self.hang_timeout = 15.0
         self.hangs = 0
         self.pre = absfn.abstract(self.template, self.inst)
         self.others_before = self._others(d)
